@@ -275,11 +275,12 @@ pub fn ref_entries(name: &str, r: Refk, t: &str, u: &str, tag: &str) -> Vec<(Str
         Refk::Whole => one(s(vec![fk(t)])),
         Refk::Mid => one(s(vec![text(&format!("[{tag}<]")), fk(t), text(&format!("[>{tag}]"))])),
         Refk::InComp => one(s(vec![comp("i", vec![fk(t), var("z")])])),
-        Refk::ArgStr => one(s(vec![fk_args(t, vec![("x", FkArg::Str(vec![text(&format!("[arg.{tag}]"))]))])])),
+        // (argument texts hold multi-byte characters: the argument part of `$t(..)` is cut out by a scanner of its own)
+        Refk::ArgStr => one(s(vec![fk_args(t, vec![("x", FkArg::Str(vec![text(&format!("[arg.é.{tag}]"))]))])])),
         Refk::ArgNum => one(s(vec![fk_args(t, vec![("x", FkArg::Int(-5))])])),
         Refk::ArgBool => one(s(vec![fk_args(t, vec![("x", FkArg::Bool(true))])])),
         Refk::ArgRename => one(s(vec![fk_args(t, vec![("x", FkArg::Str(vec![text("<"), var("y"), text(">")]))])])),
-        Refk::ArgFk => one(s(vec![fk_args(t, vec![("x", FkArg::Str(vec![text("("), fk(u), text(")")]))])])),
+        Refk::ArgFk => one(s(vec![fk_args(t, vec![("x", FkArg::Str(vec![text("（"), fk(u), text("）🎉")]))])])),
         Refk::CountLit => one(s(vec![fk_args(t, vec![("count", FkArg::UInt(1))])])),
         Refk::CountLit0 => one(s(vec![fk_args(t, vec![("count", FkArg::UInt(0)), ("x", FkArg::Str(vec![text("X")]))])])),
         Refk::CountVar => one(s(vec![fk_args(t, vec![("count", FkArg::Str(vec![text(" "), var("n"), text(" ")]))])])),
